@@ -282,3 +282,50 @@ func VerifC02_AllShort() {
 	data := vsymBytes(n)
 	c02Check(data)
 }
+
+// VerifC02_Depth: nesting chains of single-child lists of depth 63, 64, 65 and 66 around every
+// kind of innermost content: a symbolic 3-byte item, an EMPTY list, a list of two items, nothing
+// (truncated). The recogniser's limit is 64 lists.
+func VerifC02_Depth() {
+	vsymExpect("accepted")
+	vsymExpect("rejected")
+	d := 63 + vsymChoose(4)
+	var data []byte
+	for i := 0; i < d-1; i++ {
+		data = append(data, 0x01, 0x01)
+	}
+	// the innermost list (the d-th) and its content
+	switch vsymChoose(4) {
+	case 0:
+		data = append(data, 0x01, 0x01)
+		data = append(data, vsymBytes(3)...)
+	case 1:
+		data = append(data, 0x01, 0x00) // an empty list at depth d
+	case 2:
+		data = append(data, 0x01, 0x02, 0xA5, 0x01, vsymU8(), 0x01, 0x00) // a leaf and an empty list at depth d+1
+	default:
+		data = append(data, 0x01, 0x01) // announces a child that is not there
+	}
+	c02Check(data)
+}
+
+// VerifC02_LengthField: 2- and 3-byte length fields with a symbolic format code and a symbolic
+// claimed length over a short concrete tail: every claimed length (up to 2^24-1) against the bytes
+// actually present; the allocation guard is armed, so pre-sizing from the claimed length before
+// checking it against the remaining input is a counterexample.
+func VerifC02_LengthField() {
+	vsymExpect("accepted")
+	vsymExpect("rejected")
+	fc := vsymU8() & 0x3F
+	tail := 6
+	var data []byte
+	if vsymBool() {
+		data = []byte{fc<<2 | 2, vsymU8(), vsymU8()}
+	} else {
+		data = []byte{fc<<2 | 3, vsymU8(), vsymU8(), vsymU8()}
+	}
+	for i := 0; i < tail; i++ {
+		data = append(data, byte(0x10+i))
+	}
+	c02Check(data)
+}
